@@ -338,6 +338,10 @@ func run(pl Plan) (res vfx.Result) {
 	if tcpTO > 4*time.Second {
 		time.Sleep(tcpTO) // exchanges bounded by TCPTimeout only (see below) must be gone when the bubble exits
 	}
+	if pl.Frozen {
+		// the frozen member's handlers give up after 12 s (a stream whose tail was cut by the fault policy never ends)
+		time.Sleep(13 * time.Second)
+	}
 	// nothing of the subject reached the network after Shutdown returned
 	cd := wire.Codec{}
 	for i, e := range c.Net.Events() {
@@ -482,6 +486,6 @@ type frozenPeer struct{}
 
 func (frozenPeer) OnPacket(*simnet.Endpoint, string, []byte) {}
 func (frozenPeer) OnStream(_ *simnet.Endpoint, _ string, c *simnet.Conn) {
-	_, _ = c.ReadAllFor(30 * time.Second)
+	_, _ = c.ReadAllFor(12 * time.Second)
 	c.Close()
 }
